@@ -1218,13 +1218,15 @@ class EqSimplifyMacro(Macro):
         if lhs.is_equals():
             if lhs.lhs == lhs.rhs and rhs == true:
                 return Thm(arg)
-            elif lhs.lhs != lhs.rhs and rhs == false:
+            elif lhs.lhs.is_constant() and lhs.rhs.is_constant() and rhs == false and \
+                    lhs.lhs.get_type() in (hol_type.IntType, hol_type.RealType) and \
+                    real.real_eval(lhs.lhs) != real.real_eval(lhs.rhs):
                 return Thm(arg)
             else:
                 raise VeriTException("eq_simplify", "rhs doesn't obey eq_simplify rule")
         elif lhs.is_not():
-            if not lhs.arg.is_equals() or lhs.arg.lhs == lhs.arg.rhs:
-                raise VeriTException("eq_simplify", "lhs should be an inequality.")
+            if not lhs.arg.is_equals() or lhs.arg.lhs != lhs.arg.rhs:
+                raise VeriTException("eq_simplify", "lhs should be of the form ~(t = t).")
             if rhs == false:
                 return Thm(arg)
             else:
